@@ -313,7 +313,10 @@ def check_auth(request, response, realm, users, encrypt=None):
         # make sure the provided credentials are correctly set
         ah = _httpauth.parseAuthorization(request.headers.get('Authorization'))
         if ah is None:
-            return httperror(request, response, 400)
+            # malformed credentials never authenticate (callers test the
+            # result for truth, so it must not be an error response object)
+            request.login = False
+            return False
 
         if not encrypt:
             encrypt = _httpauth.DIGEST_AUTH_ENCODERS[_httpauth.MD5]
@@ -340,7 +343,8 @@ def check_auth(request, response, realm, users, encrypt=None):
 
         # validate the Authorization by re-computing it here
         # and compare it with what the user-agent provided
-        if _httpauth.checkResponse(ah, password, method=request.method, encrypt=encrypt, realm=realm):
+        # (a user without an entry has no password and never verifies)
+        if password is not None and _httpauth.checkResponse(ah, password, method=request.method, encrypt=encrypt, realm=realm):
             request.login = ah['username']
             return True
 
